@@ -472,10 +472,10 @@ API_CONFIGS = {
               ('api5-wellformed', q(V_MAXCALLS=5, V_FAULTS='none', V_VALIDALL=1)),
               # two-phase multi-query usage, two checker objects (one walls off the far end), problem and
               # checker objects re-installed in every combination: up to 8 calls
-              ('api8-twophase-pocket', {**POCKET, 'V_MAXCALLS': '8'}, {'reps': 6})],
+              ('api8-twophase-pocket', {**POCKET, 'V_MAXCALLS': '8'}, {'reps': 3})],
     'thorough': [('api5-faults', q(V_MAXCALLS=5, V_MAXK=4)),
                  ('api6-wellformed', q(V_MAXCALLS=6, V_FAULTS='none', V_VALIDALL=1)),
-                 ('api9-twophase-pocket', {**POCKET, 'V_MAXCALLS': '9'}, {'reps': 24})],
+                 ('api9-twophase-pocket', {**POCKET, 'V_MAXCALLS': '9'}, {'reps': 8})],
 }
 
 
